@@ -187,7 +187,18 @@ CHECKS = {
         'and specification; recursion depth 10^3..10^5 through plain rules, templates, classes on the implementation.',
    note=TB + 'partial: the Python/C stack is not modelled (no RecursionError is an observation); spill transparency is proved on a mini-language, the full model has no spilling. Known findings: names read only via inline Python / counts are not passed to the helper.',
    technique='Coq proofs (wrappers transparent at any depth; helper spilling transparent) + differential correspondence across the block-budget threshold',
-   ref='DESIGN.md §6 C17'),
+   ref='DESIGN.md §6 C17'), 'C18': dict(
+   text='Coq theorems on the model of a module with a history (the grammar plus a log of earlier calls): '
+        'C18_outcome_independent_of_history (the outcome of a call is that of the call alone, for every history) and '
+        'C18_calls_commute (two calls in either order produce the outcomes they produce alone) — true by construction because '
+        'parse_model creates all per-call state (memo, stack, registers, line/column tables) inside the call. That the '
+        'implementation has no other shared state is decided by runs: histories of 2-30 calls on five modules (some abandoned '
+        'because inline Python raises) against freshly built modules, 2-8 threads x 150 calls with a 1 microsecond switch '
+        'interval, nested parses from every callback kind (|>, where, class field, requires, module-level parse), compiling an '
+        'extending grammar and a grammar that re-uses the name.',
+   note=TB + 'partial: a theorem about the model cannot exhibit a data race in CPython or state the model does not know about; those halves are exploration.',
+   technique='Coq purity/commutation theorems on the call-history model + history, thread-schedule and re-entrancy runs against fresh modules',
+   ref='DESIGN.md §6 C18'),
 }
 
 PENDING = 'check under construction in this session (model/spec exist as design spikes under notes/spike; not yet wired into a registered check)'
